@@ -387,7 +387,7 @@ func c02Gen(t *rapid.T) c02Case {
 			for j := 0; j < nv; j++ {
 				vals = append(vals, hostile("genvalue"))
 			}
-			c.Spec.Headers = append(c.Spec.Headers, gen.HeaderSpec{Name: names[i], Values: vals})
+			c.Spec.Headers = append(c.Spec.Headers, gen.HeaderSpec{Name: names[i], Values: vals, OldName: rapid.IntRange(0, 3).Draw(t, "oldname") == 0})
 		}
 	}
 	if pick("msgid") {
